@@ -156,7 +156,16 @@ fn known_triggers(w: &World, k1: &BTreeMap<String, String>, k2: &BTreeMap<String
   let cls_err = |m: &BTreeMap<String, String>| {
     m.values().any(|v| matches!(v.as_str(), "error:sourcePhase" | "error:unsupportedAttr" | "error:unsupportedMedia" | "error:invalidTypeAssertion"))
   };
-  let asset_forms = has_item(&|f| match f {
+  // a source map is requested as an asset as well: when its URL names a specifier that the full
+  // build settled as something other than the asset stand-in (a type edge loaded it as a module
+  // first), the code-only build has the stand-in there
+  let source_map_names_module = full.modules().filter_map(|m| m.js()).any(|js| {
+    js.maybe_source_map_dependency.as_ref().and_then(|d| d.dependency.maybe_specifier()).map_or(false, |t| {
+      let r = full.resolve(t);
+      !matches!(full.try_get(r), Ok(Some(Module::External(_))) | Ok(None))
+    })
+  });
+  let asset_forms = source_map_names_module || has_item(&|f| match f {
     Form::SourcePhase => true,
     Form::With(a) | Form::DynamicWith(a) => matches!(a.as_str(), "text" | "bytes" | "css"),
     _ => false,
